@@ -357,11 +357,166 @@ fn nearest_reference(forest: &[Tree<(usize, usize)>]) -> Vec<(usize, usize)> {
 	out
 }
 
+// ------------------------------------------------------------------------------------------------ reference: Maven's rules
+// Written from the rules (Spec/MavenPom.lean, Spec/MavenLevels.lean, Spec/MavenScope.lean), independently of the crate:
+// plain recursion for effective POMs (no parent stack), a table literal for scopes, level-by-level mediation (no queue).
+
+/// Maven's documented scope table (+ `system` like `provided`): MAVEN_TABLE[left][top], index = position in SCOPES
+const MAVEN_TABLE: [[Option<&str>; 5]; 5] = [
+	//            compile           runtime           test  system provided
+	/* compile */ [Some("compile"), Some("runtime"), None, None, None],
+	/* runtime */ [Some("runtime"), Some("runtime"), None, None, None],
+	/* test    */ [Some("test"), Some("test"), None, None, None],
+	/* system  */ [Some("system"), Some("system"), None, None, None],
+	/* provided*/ [Some("provided"), Some("provided"), None, None, None],
+];
+
+fn scope_index(s: &str) -> usize { SCOPES.iter().position(|x| *x == s).expect("scope") }
+
+#[derive(Clone, Debug, PartialEq)]
+struct RDep { g: String, a: String, v: String, c: Option<String>, t: String, scope: Option<String>, optional: Option<bool> }
+
+#[derive(Clone, Debug)]
+struct REff { g: String, v: String, t: String, dm: Vec<RDep>, deps: Vec<RDep> }
+
+/// `^(.*)-(\d{8}\.\d{6})-(\d+)$` ↦ `\1-SNAPSHOT`
+fn ref_base_version(v: &str) -> String {
+	let digits = |s: &str, n: Option<usize>| !s.is_empty() && s.bytes().all(|b| b.is_ascii_digit()) && n.is_none_or(|n| s.len() == n);
+	let parts: Vec<&str> = v.split('-').collect();
+	if parts.len() >= 3 {
+		let build = parts[parts.len() - 1];
+		let stamp = parts[parts.len() - 2];
+		if digits(build, None) {
+			if let Some((d, t)) = stamp.split_once('.') {
+				if digits(d, Some(8)) && digits(t, Some(6)) {
+					return format!("{}-SNAPSHOT", parts[..parts.len() - 2].join("-"));
+				}
+			}
+		}
+	}
+	v.to_owned()
+}
+
+struct RefCtx<'a> { docs: HashMap<&'a str, &'a Doc>, repos: &'a [(String, String)] }
+
+impl RefCtx<'_> {
+	/// first repository serving the POM; an unparsable document or a wrong model version is an error
+	fn find(&self, g: &str, a: &str, v: &str) -> Result<(usize, &GPom), ()> {
+		for (i, (_, maven)) in self.repos.iter().enumerate() {
+			let url = format!("{maven}{slash}{g}/{a}/{bv}/{a}-{v}.pom", slash = if maven.ends_with('/') { "" } else { "/" }, g = g.replace('.', "/"), bv = ref_base_version(v));
+			match self.docs.get(url.as_str()) {
+				None => continue,
+				Some(Doc::Bad) => return Err(()),
+				Some(Doc::Pom(p)) => return if p.mv == "4.0.0" { Ok((i, p)) } else { Err(()) },
+			}
+		}
+		Err(())
+	}
+
+	fn effective(&self, g: &str, a: &str, v: &str, depth: usize) -> Result<(usize, REff), ()> {
+		if depth > 200 { return Err(()); }
+		let (repo, pom) = self.find(g, a, v)?;
+		let parent = match &pom.parent {
+			None => None,
+			Some((pg, pa, pv)) => {
+				let e = self.effective(pg, pa, pv, depth + 1)?.1;
+				if e.t != "pom" { return Err(()); }
+				Some(e)
+			}
+		};
+		let group = pom.g.clone().or_else(|| parent.as_ref().map(|p| p.g.clone())).ok_or(())?;
+		let version = pom.v.clone().or_else(|| parent.as_ref().map(|p| p.v.clone())).ok_or(())?;
+		let mut dm = Vec::new();
+		for x in &pom.dm {
+			let xv = x.v.clone().ok_or(())?;
+			let t = x.t.clone().unwrap_or_else(|| "jar".into());
+			if x.scope.as_deref() == Some("import") {
+				dm.extend(self.effective(&x.g, &x.a, &xv, depth + 1)?.1.dm);
+			} else {
+				let c = x.c.clone().or_else(|| default_classifier(&t));
+				dm.push(RDep { g: x.g.clone(), a: x.a.clone(), v: xv, c, t, scope: x.scope.clone(), optional: x.optional });
+			}
+		}
+		if let Some(p) = &parent { dm.extend(p.dm.iter().cloned()); }
+		let mut deps = Vec::new();
+		for x in &pom.deps {
+			let t = x.t.clone().unwrap_or_else(|| "jar".into());
+			let c = x.c.clone().or_else(|| default_classifier(&t));
+			let managed = dm.iter().find(|m| m.g == x.g && m.a == x.a && m.c == c && m.t == t);
+			let xv = x.v.clone().or_else(|| managed.map(|m| m.v.clone())).ok_or(())?;
+			deps.push(RDep { g: x.g.clone(), a: x.a.clone(), v: xv, c, t, scope: x.scope.clone().or_else(|| managed.and_then(|m| m.scope.clone())),
+				optional: x.optional.or_else(|| managed.and_then(|m| m.optional)) });
+		}
+		if let Some(p) = &parent { deps.extend(p.deps.iter().cloned()); }
+		Ok((repo, REff { g: group, v: version, t: pom.packaging.clone().unwrap_or_else(|| "jar".into()), dm, deps }))
+	}
+
+	fn tree(&self, c: &GCoord, scope: &str, depth: usize) -> Result<Tree<(usize, GCoord, String)>, ()> {
+		if depth > 200 { return Err(()); }
+		let (repo, eff) = self.effective(&c.g, &c.a, &c.v, 0)?;
+		let mut children = Vec::new();
+		for d in &eff.deps {
+			if d.optional == Some(true) { continue; }
+			let declared = d.scope.as_deref().unwrap_or("compile");
+			if let Some(s) = MAVEN_TABLE[scope_index(scope)][scope_index(declared)] {
+				children.push(self.tree(&GCoord { g: d.g.clone(), a: d.a.clone(), v: d.v.clone(), c: d.c.clone(), t: d.t.clone() }, s, depth + 1)?);
+			}
+		}
+		Ok(Tree { data: (repo, c.clone(), scope.to_owned()), children })
+	}
+}
+
+/// the list `get_maven_dependencies` must return according to the rules: `(name maven coord scope)` entries
+fn reference_resolve(universe: &[(String, Doc)], repos: &[(String, String)], roots: &[(GCoord, DependencyScope)]) -> Result<Vec<Sexp>, ()> {
+	let mut docs = HashMap::new();
+	for (url, doc) in universe { docs.entry(url.as_str()).or_insert(doc); }
+	let ctx = RefCtx { docs, repos };
+	let forest = roots.iter().map(|(c, s)| ctx.tree(c, scope_tag(*s), 0)).collect::<Result<Vec<_>, ()>>()?;
+	// nearest wins, first declared breaks ties, losers' subtrees are never looked at
+	let mut seen = HashSet::new();
+	let mut out = Vec::new();
+	let mut considered: Vec<&Tree<(usize, GCoord, String)>> = forest.iter().collect();
+	while !considered.is_empty() {
+		let mut kept = Vec::new();
+		for t in considered {
+			let (repo, c, scope) = &t.data;
+			if seen.insert((c.g.clone(), c.a.clone(), c.c.clone(), c.t.clone())) {
+				out.push(Sexp::list(vec![Sexp::str(&repos[*repo].0), Sexp::str(&repos[*repo].1), c.to_sexp(), Sexp::tag(scope)]));
+				kept.push(t);
+			}
+		}
+		considered = kept.iter().flat_map(|t| t.children.iter()).collect();
+	}
+	Ok(out)
+}
+
+/// `out` is obtained from `forest` by deleting whole subtrees
+fn pruned(forest: &[Tree<usize>], out: &[Tree<usize>]) -> bool {
+	match (forest, out) {
+		(_, []) => true,
+		([], _) => false,
+		([t, ts @ ..], [u, us @ ..]) => (t.data == u.data && pruned(&t.children, &u.children) && pruned(ts, us)) || pruned(ts, out),
+	}
+}
+
+/// level by level
+fn level_order(forest: &[Tree<usize>]) -> Vec<usize> {
+	let mut out = Vec::new();
+	let mut level: Vec<&Tree<usize>> = forest.iter().collect();
+	while !level.is_empty() {
+		out.extend(level.iter().map(|t| t.data));
+		level = level.iter().flat_map(|t| t.children.iter()).collect();
+	}
+	out
+}
+
 // ------------------------------------------------------------------------------------------------ exec
 
 fn no_char(c: &GCoord, ch: char) -> bool {
 	!c.g.contains(ch) && !c.a.contains(ch) && !c.v.contains(ch) && !c.t.contains(ch) && c.c.as_ref().is_none_or(|k| !k.contains(ch))
 }
+
+fn tr_list(s: &Sexp) -> &[Sexp] { s.as_list().expect("list") }
 
 fn exec(op: &str, args: &[Sexp]) -> Ans {
 	macro_rules! tr { ($e:expr) => { match $e { Ok(x) => x, Err(e) => return Ans::BadOp(e.to_string()) } } }
@@ -383,6 +538,35 @@ fn exec(op: &str, args: &[Sexp]) -> Ans {
 				if !ids.insert(format!("{} {} {} {}", c[0], c[1], c[3], c[4])) { return Ans::fail("duplicate-id"); }
 			}
 			Ans::pass()
+		}
+		("oracle-resolve-spec", [u, rs, roots]) => {
+			let u = tr!(universe_from(u));
+			let rs = tr!(repos_from(rs));
+			let roots = tr!(roots_from(roots));
+			let Ok(v) = run_resolve(&u, &rs, &roots) else { return Ans::out_of_domain() };
+			// (name maven coord scope) of every resolved dependency, in order
+			let got: Vec<Sexp> = v.iter().map(|f| Sexp::list(tr_list(f)[..4].to_vec())).collect();
+			match reference_resolve(&u, &rs, &roots) {
+				Ok(want) => if want == got { Ans::pass() } else { Ans::fail("differs-from-spec") },
+				Err(()) => Ans::fail("spec-undefined"),
+			}
+		}
+		("oracle-mediation", [f]) => {
+			let input = tr!(forest_from(f));
+			let mut forest = input.clone();
+			let mut set = forest.iter().flat_map(Tree::breadth_first).copied().collect::<HashSet<_>>();
+			Forest::breadth_first_retain(&mut forest, |d| set.remove(d));
+			if !pruned(&input, &forest) { return Ans::fail("not-a-pruning"); }
+			let flat: Vec<usize> = Forest::into_breadth_first(forest).collect();
+			if flat.iter().collect::<HashSet<_>>().len() != flat.len() { return Ans::fail("duplicate-id"); }
+			let want: Vec<usize> = nearest_reference(&number_forest(&input)).into_iter().map(|(l, _)| l).collect();
+			if flat == want { Ans::pass() } else { Ans::fail("not-nearest") }
+		}
+		("oracle-levelorder", [f]) => {
+			let forest = tr!(forest_from(f));
+			let want = level_order(&forest);
+			let got: Vec<usize> = Forest::into_breadth_first(forest).collect();
+			if got == want { Ans::pass() } else { Ans::fail("not-level-order") }
 		}
 		("retain-first", [f]) => {
 			let mut forest = tr!(forest_from(f));
@@ -439,7 +623,7 @@ fn exec(op: &str, args: &[Sexp]) -> Ans {
 				Err(_) => Ans::fail("roundtrip"),
 			}
 		}
-		("scope-table", [a, b]) => {
+		("scope-table" | "oracle-scope-table", [a, b]) => {
 			// observed through resolution: root with scope `a` depending on a leaf with declared scope `b`
 			let a = tr!(a.as_atom()); let b = tr!(b.as_atom());
 			let sa = tr!(scope_of_tag(a)); tr!(scope_of_tag(b));
@@ -451,11 +635,16 @@ fn exec(op: &str, args: &[Sexp]) -> Ans {
 			];
 			let roots = [(GCoord { g: "syn".into(), a: "root".into(), v: "1".into(), c: None, t: "jar".into() }, sa)];
 			let v = tr!(run_resolve(&u, &[("syn".into(), SYN_REPO.into())], &roots));
-			match v.as_slice() {
-				[_] => Ans::Ok(Sexp::list(vec![])),
-				[_, leaf] => Ans::Ok(Sexp::list(vec![tr!(leaf.as_list())[3].clone()])),
-				_ => Ans::BadOp("scope-table shape".into()),
+			let cell: Option<Sexp> = match v.as_slice() {
+				[_] => None,
+				[_, leaf] => Some(tr!(leaf.as_list())[3].clone()),
+				_ => return Ans::BadOp("scope-table shape".into()),
+			};
+			if op == "scope-table" {
+				return Ans::Ok(Sexp::list(cell.into_iter().collect()));
 			}
+			let want = MAVEN_TABLE[scope_index(a)][scope_index(b)].map(Sexp::tag);
+			if cell == want { Ans::pass() } else { Ans::fail("not-mavens-table") }
 		}
 		("scope-print", [a]) => Ans::Ok(Sexp::str(&tr!(scope_of_tag(tr!(a.as_atom()))).to_string())),
 		("scope-parse", [s]) => {
@@ -477,7 +666,7 @@ fn exec(op: &str, args: &[Sexp]) -> Ans {
 		}
 		("oracle-found-rt", [f]) => {
 			let (n, m, c, sc) = tr!(found_from_sexp(f));
-			if !no_char(&c, ':') || !no_char(&c, '@') { return Ans::out_of_domain(); }
+			if !no_char(&c, ':') || c.real().to_string().contains(" @ ") { return Ans::out_of_domain(); }
 			let fd = FoundDependency { resolver: Resolver { name: Cow::Owned(n), maven: Cow::Owned(m.clone()) }, coord: c.real(), scope: sc };
 			let text = fd.to_string();
 			match FoundDependency::try_from(text.as_str()) {
@@ -809,7 +998,33 @@ fn gen(r: &mut Rng, tier: Tier, out: &mut Out) {
 		let roots = Sexp::list(u.roots.iter().map(|(c, s)| Sexp::list(vec![c.to_sexp(), Sexp::tag(s)])).collect());
 		out.stats.hit(&format!("roots:{}", u.roots.len()));
 		out.op("mvn-resolve", &[us.clone(), rs.clone(), roots.clone()]);
-		out.op("oracle-nodup", &[us, rs, roots]);
+		out.op("oracle-nodup", &[us.clone(), rs.clone(), roots.clone()]);
+		out.op("oracle-resolve-spec", &[us, rs, roots]);
+	}
+	// --- 1b. every scope combination over two levels: root (a) -> mid (declared b, or omitted and managed as b) -> leaf (declared c),
+	//         with and without the optional flag
+	let lib = |a: &str, deps: Vec<GDep>, dm: Vec<GDep>| GPom { mv: "4.0.0".into(), parent: None, g: Some("sc".into()), a: a.into(), v: Some("1".into()), packaging: None, dm, deps };
+	let dep = |a: &str, scope: Option<&str>, v: bool, optional: Option<bool>| GDep { g: "sc".into(), a: a.into(), v: if v { Some("1".into()) } else { None }, t: None, c: None, scope: scope.map(|s| s.to_owned()), optional };
+	let mut variant = 0usize;
+	for a in SCOPES {
+		for b in [None, Some("compile"), Some("runtime"), Some("test"), Some("system"), Some("provided")] {
+			for c in [None, Some("compile"), Some("runtime"), Some("test"), Some("system"), Some("provided")] {
+				variant += 1;
+				// every third universe declares mid's scope only in the root's dependency management; every seventh marks leaf optional
+				let managed = variant % 3 == 0;
+				let optional = if variant % 7 == 0 { Some(true) } else if variant % 7 == 1 { Some(false) } else { None };
+				let root = if managed { lib("root", vec![dep("mid", None, false, None)], vec![dep("mid", b, true, None)]) } else { lib("root", vec![dep("mid", b, true, None)], vec![]) };
+				let mid = lib("mid", vec![dep("leaf", c, true, optional)], vec![]);
+				let leaf = lib("leaf", vec![], vec![]);
+				let maven = "invalid://sc.example/m";
+				let us = Sexp::list([("root", root), ("mid", mid), ("leaf", leaf)].into_iter().map(|(n, p)| Sexp::list(vec![Sexp::str(&format!("{maven}/sc/{n}/1/{n}-1.pom")), Doc::Pom(p).to_sexp()])).collect());
+				let rs = Sexp::list(vec![Sexp::list(vec![Sexp::str("sc"), Sexp::str(maven)])]);
+				let roots = Sexp::list(vec![Sexp::list(vec![GCoord { g: "sc".into(), a: "root".into(), v: "1".into(), c: None, t: "jar".into() }.to_sexp(), Sexp::tag(a)])]);
+				out.op("mvn-resolve", &[us.clone(), rs.clone(), roots.clone()]);
+				out.op("oracle-resolve-spec", &[us, rs, roots]);
+				out.stats.hit("scope-chain:exhaustive");
+			}
+		}
 	}
 	// --- 2. label forests: mediation, retain order, traversal
 	let rounds = if thorough { 20000 } else { 600 };
@@ -819,7 +1034,9 @@ fn gen(r: &mut Rng, tier: Tier, out: &mut Out) {
 		out.stats.hit(&format!("forest-nodes:{}", match nodes { 0 => "0", 1..=4 => "1-4", 5..=12 => "5-12", _ => "13+" }));
 		let fs = forest_to(&f);
 		out.op("retain-first", &[fs.clone()]);
+		out.op("oracle-mediation", &[fs.clone()]);
 		out.op("bfs", &[fs.clone()]);
+		out.op("oracle-levelorder", &[fs.clone()]);
 		match i % 3 {
 			0 => out.op("retain-alt", &[fs.clone()]),
 			1 => out.op("retain-mod", &[fs.clone(), Sexp::nat(r.range(2, 4))]),
@@ -835,6 +1052,7 @@ fn gen(r: &mut Rng, tier: Tier, out: &mut Out) {
 	for n in 0..=max_n2 {
 		for f in all_forests(n, 2) {
 			out.op("retain-first", &[forest_to(&f)]);
+			out.op("oracle-mediation", &[forest_to(&f)]);
 			if n <= 3 || thorough { out.op("oracle-nearest", &[forest_to(&f)]); }
 		}
 	}
@@ -844,7 +1062,10 @@ fn gen(r: &mut Rng, tier: Tier, out: &mut Out) {
 	out.stats.hit("exhaustive:small-forests");
 	// --- 3. scopes
 	for a in SCOPES {
-		for b in SCOPES { out.op("scope-table", &[Sexp::tag(a), Sexp::tag(b)]); }
+		for b in SCOPES {
+			out.op("scope-table", &[Sexp::tag(a), Sexp::tag(b)]);
+			out.op("oracle-scope-table", &[Sexp::tag(a), Sexp::tag(b)]);
+		}
 		out.op("scope-print", &[Sexp::tag(a)]);
 		out.op("oracle-scope-rt", &[Sexp::tag(a)]);
 		out.op("scope-parse", &[Sexp::str(a)]);
